@@ -135,6 +135,8 @@ type pathMism struct {
 	Inc   bool            `json:"inc"`
 	Want  pv              `json:"want"`
 	Got   dvm.PathVerdict `json:"got"`
+	GotAt int             `json:"gotat"`
+	Pass  int             `json:"pass"` // 1: rejected paths first, 2: accepted paths first (fresh schema each)
 }
 
 // replayPath: files come in pairs sps_N (schema) spv_N (vectors).
@@ -154,44 +156,78 @@ func replayPath(args []string) {
 			die("%s: one schema expected", files[i])
 		}
 		sh := shs[0]
-		ms, err := dvm.Compile(sh)
-		if err != nil {
-			die("shape %d does not compile: %v\n%s", sh.ID, err, dvm.RenderYang(sh))
+		type item struct {
+			p    []string
+			inc  bool
+			want pv
 		}
+		items := []item{}
 		eachLine(files[i+1], func(b []byte) {
 			var v pathVec
 			if err := json.Unmarshal(b, &v); err != nil {
 				die("%s: %v", files[i+1], err)
 			}
-			for _, m := range []struct {
-				inc  bool
-				want pv
-			}{{false, v.S}, {true, v.I}} {
-				n++
-				got := dvm.ValidatePath(ms, v.P, m.inc)
-				good := got.Ok == m.want.Ok
-				if good && !got.Ok {
-					good = got.At == m.want.At && (got.At > len(v.P) || got.Tok == v.P[got.At-1])
-				}
-				if !good {
-					bad++
-					w.put(pathMism{sh.ID, v.P, m.inc, m.want, got})
+			items = append(items, item{v.P, false, v.S}, item{v.P, true, v.I})
+		})
+		// The verdict on a path must not depend on what was validated before: every vector is run
+		// twice, each time on a freshly compiled schema - once with all paths the spec rejects
+		// first, once with all paths it accepts first.
+		reported := map[string]bool{}
+		for pass, rejectedFirst := range []bool{true, false} {
+			ms, err := dvm.Compile(sh)
+			if err != nil {
+				die("shape %d does not compile: %v\n%s", sh.ID, err, dvm.RenderYang(sh))
+			}
+			for _, first := range []bool{true, false} {
+				for _, m := range items {
+					if (m.want.Ok != rejectedFirst) != first {
+						continue
+					}
+					n++
+					got := dvm.ValidatePath(ms, m.p, m.inc)
+					good := got.Ok == m.want.Ok
+					ats := got.Ats(m.p)
+					if good && !got.Ok {
+						// the error must identify the spec's first offending element: its decoded path is the
+						// input's own prefix up to that element (and its info tag that element)
+						good = false
+						for _, a := range ats {
+							if a == m.want.At {
+								good = true
+							}
+						}
+					}
+					if !good {
+						k := fmt.Sprint(m.p, m.inc)
+						if reported[k] {
+							continue
+						}
+						reported[k] = true
+						bad++
+						at := -1 // what the error identifies (diagnostic): its single reading, else -1
+						if len(ats) > 0 {
+							at = ats[0]
+						}
+						w.put(pathMism{sh.ID, m.p, m.inc, m.want, got, at, pass + 1})
+					}
 				}
 			}
-		})
+		}
 	}
 	w.close()
 	fmt.Printf("{\"evaluations\":%d,\"mismatches\":%d}\n", n, bad)
 }
 
 type pathEvent struct {
-	Sid int      `json:"sid"`
-	P   []string `json:"p"`
-	Inc bool     `json:"inc"`
-	Ok  bool     `json:"ok"`
-	At  int      `json:"at"`
-	Tok string   `json:"tok"`
-	Err string   `json:"err"`
+	Sid   int      `json:"sid"`
+	P     []string `json:"p"`
+	Inc   bool     `json:"inc"`
+	Ok    bool     `json:"ok"`
+	Form  string   `json:"form"`
+	Epath []string `json:"epath"`
+	Tok   string   `json:"tok"`
+	MV    bool     `json:"mv"`
+	Err   string   `json:"err"`
 }
 
 func recordPath(args []string) {
@@ -214,7 +250,12 @@ func recordPath(args []string) {
 			uncompilable++
 			continue
 		}
+		type call struct {
+			p   []string
+			inc bool
+		}
 		seen := map[string]bool{}
+		calls := []call{}
 		for i := 0; i < *n; i++ {
 			p := dvm.RandPath(r, sh)
 			inc := r.Intn(2) == 0
@@ -224,9 +265,25 @@ func recordPath(args []string) {
 				continue
 			}
 			seen[k] = true
-			got := dvm.ValidatePath(ms, p, inc)
-			w.put(pathEvent{sh.ID, p, inc, got.Ok, got.At, got.Tok, got.Err})
-			ev++
+			calls = append(calls, call{p, inc})
+		}
+		// the same calls in the drawn order and, on a freshly compiled schema, in the reverse order:
+		// what Validate answers must not depend on the calls made before
+		for pass := 0; pass < 2; pass++ {
+			if pass == 1 {
+				if ms, err = dvm.Compile(sh); err != nil {
+					die("schema %d does not compile the second time: %v", sh.ID, err)
+				}
+			}
+			for i := range calls {
+				c := calls[i]
+				if pass == 1 {
+					c = calls[len(calls)-1-i]
+				}
+				got := dvm.ValidatePath(ms, c.p, c.inc)
+				w.put(pathEvent{sh.ID, c.p, c.inc, got.Ok, got.Form, got.Epath, got.Tok, got.MV, got.Err})
+				ev++
+			}
 		}
 	}
 	w.close()
